@@ -15,6 +15,7 @@
 #include <upolynomial.h>
 #include <assignment.h>
 #include <value.h>
+#include <variable_list.h>
 #include <rational.h>
 #include <dyadic_rational.h>
 #include "polynomial/polynomial.h"
@@ -96,6 +97,48 @@ static void u_print(const lp_upolynomial_t* u) {
   printf("%zu:%zu:", d, u->size);
   for (size_t i = 0; i <= d; ++i) { if (i) putchar(','); print_z(&cs[i]); mpz_clear(&cs[i]); }
   free(cs);
+}
+
+
+/* parse "v0,..,v7" into an assignment; only variables whose bit is set in mask are assigned */
+static lp_assignment_t* mk_assignment(const char* vals, unsigned mask) {
+  lp_assignment_t* M = lp_assignment_new(pio_db);
+  const char* c = vals;
+  for (int i = 0; i < PIO_NV; ++i) {
+    const char* e = c; while (*e && *e != ',') ++e;
+    if (mask & (1u << i)) {
+      char* num = strndup(c, (size_t)(e - c));
+      lp_integer_t v; mpz_init_set_str(&v, num, 10); free(num);
+      lp_value_t val; lp_value_construct(&val, LP_VALUE_INTEGER, &v);
+      lp_assignment_set_value(M, pio_x[i], &val);
+      lp_value_destruct(&val); mpz_clear(&v);
+    }
+    c = *e ? e + 1 : e;
+  }
+  return M;
+}
+/* a term "c*xI^E..." as a monomial, variables pushed in the order written; built through the lp_monomial_*
+ * helpers: an extra power is pushed and popped again, the result is assigned to `out` and the scratch cleared */
+static void mk_monomial(const char* text, lp_monomial_t* out, int sort) {
+  const char* c = text;
+  const char* e = c; if (*e == '-') ++e; while (*e >= '0' && *e <= '9') ++e;
+  char* num = strndup(c, (size_t)(e - c));
+  lp_integer_t a; mpz_init_set_str(&a, num, 10); free(num);
+  lp_monomial_t m; lp_monomial_construct(pio_ctx, &m); lp_monomial_set_coefficient(pio_ctx, &m, &a);
+  c = e;
+  while (*c == '*') { c += 2; int idx = (int) strtol(c, (char**)&c, 10); ++c; unsigned long ex = strtoul(c, (char**)&c, 10);
+    if (ex > 0) lp_monomial_push(&m, pio_x[idx], (size_t) ex); }
+  lp_monomial_push(&m, pio_x[PIO_NV - 1], 17); lp_monomial_pop(&m);
+  lp_monomial_assign(pio_ctx, out, &m, sort);
+  lp_monomial_clear(pio_ctx, &m);
+  lp_monomial_destruct(&m); mpz_clear(&a);
+}
+/* coefficient and powers by increasing variable index */
+static void print_monomial(const lp_monomial_t* m) {
+  print_z(&m->a);
+  for (int v = 0; v < PIO_NV; ++v)
+    for (size_t i = 0; i < m->n; ++i)
+      if (pio_var_index(m->p[i].x) == v && m->p[i].d > 0) printf("*x%d^%zu", v, m->p[i].d);
 }
 
 static void run_mv(void) {
@@ -188,6 +231,72 @@ static void run_mv(void) {
       lp_polynomial_swap(q, P[IDX(1)]);
       lp_polynomial_delete(q); lp_upolynomial_delete(u); k += 4;
     }
+    else if (!strcmp(op, "obs")) {
+      /* observers of one pool object */
+      const lp_polynomial_t* A = P[IDX(1)];
+      lp_integer_t lcc; mpz_init(&lcc); lp_polynomial_lc_constant(A, &lcc);
+      printf("=L%dU%dM%dS%dC%d:", lp_polynomial_is_linear(A), lp_polynomial_is_univariate(A), lp_polynomial_is_monomial(A),
+             lp_polynomial_lc_sgn(A), lp_polynomial_lc_is_constant(A));
+      print_z(&lcc); mpz_clear(&lcc);
+      lp_variable_list_t vars; lp_variable_list_construct(&vars); lp_polynomial_get_variables(A, &vars);
+      printf(":V");
+      for (int v = 0; v < PIO_NV; ++v) if (lp_variable_list_contains(&vars, pio_x[v])) printf("%d,", v);
+      printf("#%zu", lp_variable_list_size(&vars));
+      lp_variable_list_destruct(&vars);
+      { lp_polynomial_t cp; lp_polynomial_construct_copy(&cp, A); printf(":K"); pio_print(&cp); lp_polynomial_destruct(&cp); }
+      if (lp_polynomial_is_monomial(A)) {
+        lp_monomial_t m; lp_monomial_construct(pio_ctx, &m); lp_polynomial_to_monomial(A, &m);
+        printf(":T"); print_monomial(&m); lp_monomial_destruct(&m);
+      }
+      k += 2;
+    }
+    else if (!strcmp(op, "isas")) {
+      lp_assignment_t* M = mk_assignment(vtok[k + 3], (unsigned) IDX(2));
+      printf("=%d", lp_polynomial_is_assigned(P[IDX(1)], M));
+      lp_assignment_delete(M); k += 4;
+    }
+    else if (!strcmp(op, "touvm")) {
+      /* to_univariate under an integer assignment: every variable except possibly the main one must be assigned */
+      const lp_polynomial_t* A = P[IDX(1)]; unsigned mask = (unsigned) IDX(2);
+      lp_variable_list_t vars; lp_variable_list_construct(&vars); lp_polynomial_get_variables(A, &vars);
+      lp_variable_t top = lp_polynomial_top_variable(A);
+      int okk = 1;
+      for (int v = 0; v < PIO_NV; ++v)
+        if (lp_variable_list_contains(&vars, pio_x[v]) && pio_x[v] != top && !(mask & (1u << v))) okk = 0;
+      lp_variable_list_destruct(&vars);
+      if (!okk) printf("=skip");
+      else {
+        lp_assignment_t* M = mk_assignment(vtok[k + 3], mask);
+        lp_upolynomial_t* u = lp_polynomial_to_univariate_m(A, M);
+        printf("="); u_print(u); lp_upolynomial_delete(u); lp_assignment_delete(M);
+      }
+      k += 4;
+    }
+    else if (!strcmp(op, "red")) {
+      if (lp_polynomial_is_constant(P[IDX(2)])) printf("=skip");
+      else lp_polynomial_reductum(P[IDX(1)], P[IDX(2)]);
+      k += 3;
+    }
+    else if (!strcmp(op, "gcoef")) { lp_polynomial_get_coefficient(P[IDX(1)], P[IDX(2)], (size_t) IDX(3)); k += 4; }
+    else if (!strcmp(op, "mgcd")) {
+      if (K != lp_Z) printf("=skip");
+      else {
+        lp_monomial_t m1, m2, g; lp_monomial_construct(pio_ctx, &m1); lp_monomial_construct(pio_ctx, &m2); lp_monomial_construct(pio_ctx, &g);
+        mk_monomial(vtok[k + 1], &m1, 1); mk_monomial(vtok[k + 2], &m2, 1);
+        lp_monomial_gcd(pio_ctx, &g, &m1, &m2);
+        printf("="); print_monomial(&g);
+        lp_monomial_destruct(&m1); lp_monomial_destruct(&m2); lp_monomial_destruct(&g);
+      }
+      k += 3;
+    }
+    else if (!strcmp(op, "addmon2")) {
+      /* add_monomial with a monomial produced by the lp_monomial_* helpers, and through a copy */
+      lp_monomial_t m, m2; lp_monomial_construct(pio_ctx, &m);
+      mk_monomial(vtok[k + 2], &m, 0);
+      lp_monomial_construct_copy(pio_ctx, &m2, &m, IDX(1) % 2);
+      lp_polynomial_add_monomial(P[IDX(1)], &m2);
+      lp_monomial_destruct(&m); lp_monomial_destruct(&m2); k += 3;
+    }
     else { printf("UNKNOWN-OP %s", op); break; }
     for (int i = 0; i < n; ++i) { putchar(' '); print_obj(P[i]); }
   }
@@ -248,6 +357,75 @@ static void run_uv(void) {
       lp_upolynomial_t* back = lp_polynomial_to_univariate(p);
       printf("="); if (back) { u_print(back); lp_upolynomial_delete(back); } else printf("none");
       lp_polynomial_delete(p); pio_done(); k += 3;
+    }
+    else if (!strcmp(op, "sgi")) {
+      lp_integer_t x; mpz_init_set_str(&x, vtok[k + 2], 10);
+      printf("=%d", lp_upolynomial_sgn_at_integer(U[IDX(1)], &x)); mpz_clear(&x); k += 3;
+    }
+    else if (!strcmp(op, "sgq")) {
+      lp_integer_t a, b; mpz_init_set_str(&a, vtok[k + 2], 10); mpz_init_set_str(&b, vtok[k + 3], 10);
+      lp_rational_t x; lp_rational_construct_from_div(&x, &a, &b);
+      printf("=%d", lp_upolynomial_sgn_at_rational(U[IDX(1)], &x));
+      lp_rational_destruct(&x); mpz_clear(&a); mpz_clear(&b); k += 4;
+    }
+    else if (!strcmp(op, "sgd")) {
+      lp_integer_t a; mpz_init_set_str(&a, vtok[k + 2], 10);
+      lp_dyadic_rational_t x; lp_dyadic_rational_construct_from_integer(&x, &a);
+      lp_dyadic_rational_div_2exp(&x, &x, strtoul(vtok[k + 3], NULL, 10));
+      printf("=%d", lp_upolynomial_sgn_at_dyadic_rational(U[IDX(1)], &x));
+      lp_dyadic_rational_destruct(&x); mpz_clear(&a); k += 4;
+    }
+    else if (!strcmp(op, "uobs")) {
+      const lp_upolynomial_t* u = U[IDX(1)];
+      const lp_integer_t* ct = lp_upolynomial_const_term(u);
+      printf("=c"); if (ct) print_z(ct); else printf("none");
+      printf(":l"); print_z(lp_upolynomial_lead_coeff(u));
+      printf(":z%do%dm%d", lp_upolynomial_is_zero(u), lp_upolynomial_is_one(u), lp_upolynomial_is_monic(u));
+      k += 2;
+    }
+    else if (!strcmp(op, "monic") || !strcmp(op, "monici")) {
+      /* valid when the leading coefficient is invertible in K (Z: divides every coefficient) */
+      const lp_upolynomial_t* u = U[IDX(op[5] ? 1 : 2)];
+      int okk = 1;
+      if (!lp_upolynomial_is_zero(u)) {
+        const lp_integer_t* lc = lp_upolynomial_lead_coeff(u);
+        if (K == lp_Z) { for (size_t i = 0; i < u->size; ++i) if (!mpz_divisible_p(&u->monomials[i].coefficient, lc)) okk = 0; }
+        else { lp_integer_t g; mpz_init(&g); mpz_gcd(&g, lc, &K->M); if (mpz_cmp_ui(&g, 1) != 0) okk = 0; mpz_clear(&g); }
+      }
+      if (!okk) { printf("=skip"); k += op[5] ? 2 : 3; }
+      else if (op[5]) { lp_upolynomial_make_monic_in_place(U[IDX(1)]); k += 2; }
+      else { d = IDX(1); r = lp_upolynomial_make_monic(U[IDX(2)]); k += 3; }
+    }
+    else if (!strcmp(op, "negi")) { lp_upolynomial_neg_in_place(U[IDX(1)]); k += 2; }
+    else if (!strcmp(op, "rev")) { lp_upolynomial_reverse_in_place(U[IDX(1)]); k += 2; }
+    else if (!strcmp(op, "sxn")) { d = IDX(1); r = lp_upolynomial_subst_x_neg(U[IDX(2)]); k += 3; }
+    else if (!strcmp(op, "sxp")) { lp_upolynomial_subst_x_pow_in_place(U[IDX(1)], (size_t) IDX(2)); k += 3; }
+    else if (!strcmp(op, "cpow")) { d = IDX(1); r = lp_upolynomial_construct_power(K, (size_t) IDX(2), strtol(vtok[k + 3], NULL, 10)); k += 4; }
+    else if (!strcmp(op, "cint") || !strcmp(op, "clong")) {
+      const char* c = vtok[k + 2];
+      size_t nn = 1; for (const char* q = c; *q; ++q) if (*q == ',') ++nn;
+      int* ci = malloc(nn * sizeof(int)); long* cl = malloc(nn * sizeof(long));
+      for (size_t i = 0; i < nn; ++i) { cl[i] = strtol(c, (char**)&c, 10); ci[i] = (int) cl[i]; if (*c == ',') ++c; }
+      d = IDX(1);
+      r = op[1] == 'i' ? lp_upolynomial_construct_from_int(K, nn - 1, ci) : lp_upolynomial_construct_from_long(K, nn - 1, cl);
+      free(ci); free(cl); k += 3;
+    }
+    else if (!strcmp(op, "divdeg")) {
+      /* valid when every stored degree is a multiple of a > 1 */
+      const lp_upolynomial_t* u = U[IDX(2)]; size_t a = (size_t) IDX(3); int okk = a > 1;
+      for (size_t i = 0; okk && i < u->size; ++i) if (u->monomials[i].degree % a) okk = 0;
+      if (!okk) printf("=skip"); else { d = IDX(1); r = lp_upolynomial_div_degrees(u, a); }
+      k += 4;
+    }
+    else if (!strcmp(op, "setring") || !strcmp(op, "copyk")) {
+      /* setring: lp_upolynomial_set_ring on a copy, documented for a "larger" ring only (the generator obeys);
+       * copyk: lp_upolynomial_construct_copy_K into any other ring (coefficients are re-normalised) */
+      lp_int_ring_t* K2 = mkring(vtok[k + 2]);
+      lp_upolynomial_t* cp;
+      if (op[0] == 's') { cp = lp_upolynomial_construct_copy(U[IDX(1)]); lp_upolynomial_set_ring(cp, K2); }
+      else cp = lp_upolynomial_construct_copy_K(K2, U[IDX(1)]);
+      printf("=%d=", lp_upolynomial_ring(cp) == K2); u_print(cp);
+      lp_upolynomial_delete(cp); rmring(K2); k += 3;
     }
     else { printf("UNKNOWN-OP %s", op); break; }
     if (r) { lp_upolynomial_delete(U[d]); U[d] = r; }
